@@ -71,6 +71,8 @@ func (p c12Probe) src() string {
 }
 
 var c12Probes = []c12Probe{{"P1", false, ""}, {"P2", false, ""}, {"P3", false, ""}, {"P4", false, ""}, {"P5", false, ""}, {"P6", true, ""}, {"P7", false, ""}, {"P8", false, ""}, {"P9", false, ""},
+	// a compiled function contains the panic of a callback: the probe itself must go on undisturbed
+	{"P11", false, ""},
 	// top-level code (not a function body) with a deferred call of its own
 	{"P10", false, "{\n\tdefer p10cleanup()\n\thook.Fault(\"p10-top\")\n\tp10n += p10body()\n\thook.Ev(\"p10\", p10n > 0)\n}"}}
 var c13Targets = []string{"L1", "L2", "L3", "L4", "L5", "L6", "L7", "L8", "L9"}
@@ -320,7 +322,7 @@ func init() {
 	register(&Prop{
 		ID:    "C12",
 		Level: "fault_enumeration",
-		Rule: "enumeration of (probe program, fault point): for each of 10 probe programs (nested calls and loops; defers that recover / modify named results / call deeper; closures; single-goroutine select; a program panic re-panicked by a deferred call; breakpoints under the debugger option; directly deferred compiled functions and builtins running while the function is already panicking; a long loop calling a compiled function; a block of top-level code with its own deferred call) a panic is injected before EVERY executed statement k = 1..N (statement seam) and inside EVERY call of a compiled function j = 1..M, entered through Eval / Compile+RunExpr / ParseEvalPrint / DebugExpr with the debugger and trap-panic options varied; every compiled-call point is repeated with a NESTED evaluation that panics and is recovered by the compiled function (the probe must then finish undisturbed); every third point (thorough: every point) is repeated with an interrupt requested at the instant the panic is raised; thorough adds all four entry paths per point and pairs (k, k+d), d = 1..12, where the second panic lands while the first is being handled. " +
+		Rule: "enumeration of (probe program, fault point): for each of 11 probe programs (nested calls and loops; defers that recover / modify named results / call deeper; closures; single-goroutine select; a program panic re-panicked by a deferred call; breakpoints under the debugger option; directly deferred compiled functions and builtins running while the function is already panicking; a long loop calling a compiled function; a block of top-level code with its own deferred call; a loop whose callbacks are run, and their panics contained, by a compiled function) a panic is injected before EVERY executed statement k = 1..N (statement seam) and inside EVERY call of a compiled function j = 1..M, entered through Eval / Compile+RunExpr / ParseEvalPrint / DebugExpr with the debugger and trap-panic options varied; every compiled-call point is repeated with a NESTED evaluation that panics and is recovered by the compiled function (the probe must then finish undisturbed); every third point (thorough: every point) is repeated with an interrupt requested at the instant the panic is raised; thorough adds all four entry paths per point and pairs (k, k+d), d = 1..12, where the second panic lands while the first is being handled. " +
 			"non-trivial = the injected panic fired; distinct = distinct (probe, kind, k, k2, entry, options)",
 		Runs:      func(tier string) int { return 0 },
 		Enumerate: c12Enumerate,
@@ -331,7 +333,7 @@ func init() {
 			return 2 * time.Minute
 		},
 		Run:        runC12,
-		FaultKinds: []string{"panic_before_statement", "panic_inside_compiled_function", "second_panic_while_unwinding", "panic_escaped_evaluation", "panic_recovered_by_program", "panic_trapped_by_repl_path", "evaluation_aborted_after_statement_budget", "interrupt_requested_with_the_panic", "nested_evaluation_aborted_inside_compiled_call"},
+		FaultKinds: []string{"panic_before_statement", "panic_inside_compiled_function", "second_panic_while_unwinding", "panic_escaped_evaluation", "panic_recovered_by_program", "panic_trapped_by_repl_path", "evaluation_aborted_after_statement_budget", "interrupt_requested_with_the_panic", "nested_evaluation_aborted_inside_compiled_call", "panic_contained_by_compiled_caller"},
 		ProbeNames: []string{"entry_Eval", "entry_Compile+RunExpr", "entry_ParseEvalPrint", "entry_DebugExpr", "option_debugger", "option_trap_panic", "battery_events_compared"},
 		RealVsStub: []string{
 			"real: every line of the interpreter (executor, deferred restore, RunExpr/DebugExpr/ParseEvalPrint, prepareEnv); the battery and the probes are interpreted code",
@@ -460,6 +462,20 @@ func runC12(t *testing.T, ch *sim.Choices, tier string) (o Outcome) {
 		}
 		if i, x, y := firstDiff(ctx.Log, c12RefLog[p.Name]); i >= 0 {
 			o.fail("nested-abort-disturbs-outer", normKey("c12", p.Name, stripDigits(x), stripDigits(y)), fmt.Sprintf("probe %s: after the nested evaluation started by compiled call %d was aborted, event #%d of the outer evaluation is %q, undisturbed %q", p.Name, k, i, x, y))
+			return
+		}
+	}
+	if p.Name == "P11" && mode == 1 && !nested && !withInterrupt && fired > 0 {
+		o.fault("panic_contained_by_compiled_caller", 1)
+		// the injected panic was raised inside a callback and recovered by the compiled function
+		// that called it: the probe's own evaluation goes on and must end as if undisturbed
+		last := ""
+		if n := len(ctx.Log); n > 0 {
+			last = ctx.Log[n-1]
+		}
+		ref := c12RefLog[p.Name]
+		if fmtPanic(esc) != c12RefEsc[p.Name] || exceeded || last != ref[len(ref)-1] {
+			o.fail("contained-panic-disturbs-caller", normKey("c12", p.Name, stripDigits(fmtPanic(esc))), fmt.Sprintf("probe P11: the panic injected in callback %d was recovered by the compiled function that called the callback; the probe then ended with %s and last event %q, undisturbed it ends with %s and %q\noutput: %s", k, fmtPanic(esc), last, c12RefEsc[p.Name], ref[len(ref)-1], tailStr(e.out.String(), 600)))
 			return
 		}
 	}
